@@ -8,7 +8,7 @@ from typing import Optional, Union
 
 from pycel.excelformula import ExcelFormula
 from pycel.excellib import _numerics, sum_, sumproduct
-from pycel.excelutil import DIV0, VALUE_ERROR
+from pycel.excelutil import DIV0, NA_ERROR, VALUE_ERROR
 from pycel.lib.stats import average, count, max_, min_
 
 from vf.dom import V, in_dom, pick_err, same
@@ -42,7 +42,7 @@ def _cell(k, v):
         return None
     if k == 3:
         return TEXTS[0] if v > 0 else TEXTS[1]
-    return pick_err(v)
+    return DIV0 if v > 0 else NA_ERROR      # two distinct error codes are enough for the first-error law
 
 
 def _build(n, ks, vs):
@@ -50,8 +50,6 @@ def _build(n, ks, vs):
     for i in range(n):
         k, v = ks[i], vs[i]
         if not (0 <= k <= 4 and -99 <= v <= 99):
-            return None
-        if k == 4 and not 0 <= v < 7:
             return None
         cells.append(_cell(k, v))
     return tuple(cells)
@@ -245,9 +243,9 @@ def obligations(tier):
                 continue
             to = 120 if n <= 3 else 1800
             add(f"aggregate[{name},{r}x{c}]", "ob_aggregate", (name, r, c), sig(n), to, "aggregate")
-            if 2 <= n <= (3 if tier == "quick" else 4) and (r, c) in ((1, 2), (1, 3)):
+            if (r, c) == (1, 2) or (tier == "thorough" and (r, c) == (1, 3)):
                 add(f"permute[{name},{r}x{c}]", "ob_permute", (name, r, c), sig(n, "i: int, j: int"), to * 2, "permute")
-    for n in ((2, 3) if tier == "quick" else (2, 3, 4)):
+    for n in ((2,) if tier == "quick" else (2, 3, 4)):
         add(f"additive[n={n}]", "ob_additive", (n,), sig(n, "k: int"), 120 if n <= 3 else 900, "additive")
     for name in FUNCS:
         add(f"text_ignored[{name}]", "ob_text_ignored", (name,), None, 60, "aggregate")
